@@ -3,6 +3,7 @@
 Values: int/float, str (text; the seven error strings are errors), bool, None (blank).
 `apply(op, a, b)` returns the expected value, or UNPINNED where the statement does not fix it.
 """
+import math
 import re
 
 ERRORS = ('#NULL!', '#DIV/0!', '#VALUE!', '#REF!', '#NAME?', '#NUM!', '#N/A')
@@ -27,7 +28,10 @@ def num(v):
         return v
     if isinstance(v, str):
         if NUMTEXT.match(v):
-            return float(v) if ('.' in v or 'e' in v.lower()) else int(v)
+            x = float(v) if ('.' in v or 'e' in v.lower()) else int(v)
+            return x if math.isfinite(x) else UNPINNED       # '1e400': numeric-looking but not a number Excel can hold
+        if re.fullmatch(r'[+-]?(inf|infinity|nan)', v, re.I) or ('_' in v and v.strip() == v):
+            return '#VALUE!'     # words and digit separators only python's float()/int() take for numbers: other text
         if v.strip() != v or v.upper() in ('TRUE', 'FALSE'):
             return UNPINNED
         try:
